@@ -56,7 +56,7 @@ def gen_cases(ctx):
 
 def run(ctx):
     import genall
-    st = genall.run(["NotifyC01"])
+    st = genall.run(["NotifyC01", "NotifyCfgC01"])
     for g, s in st.items():
         if s.startswith("FAILED"):
             ctx.tie_broken("translator group " + g, s)
@@ -88,6 +88,12 @@ def run(ctx):
             ctx.violation(key, "%s [%s]" % (text, c.header()), rep)
     if len(runs) < len(cases):
         ctx.tie_broken("harness output", "%d of %d runs reported" % (len(runs), len(cases)))
+    # HISTORIES ON ONE NOTIFY OBJECT: several rounds (barrier in between) with reconfiguration between the rounds - set_widths
+    # shrinking / growing / permuted, set_type back and forth, set_num_ranges, set_eager_threshold, callback replaced, object
+    # re-created; every round judged and co-simulated as a single call with the parameters in force; the extracted state model
+    # of the object (C01/Reconfig.v, built from the generated setters) against the getters after every prefix
+    if not (ctx.replay and "case" in json.load(open(ctx.replay)).get("replay", {})):
+        nc.history_tie(ctx, [0, 0, 0, 1], 52 if ctx.quick else 780)
     # T2: the static sc_notify_merge of the working tree against the extracted int-level model
     nc.merge_tie(ctx, [0, 0, 0, 1, 2], 1500 if ctx.quick else 20000)
     # T3: every rank's trace of single calls co-simulated against the extracted per-rank programs (6 algorithms)
@@ -95,14 +101,17 @@ def run(ctx):
     ctx.cov["rule"] = ("sc_notify_payload without payload (and sc_notify, sc_notify_allgather, sc_notify_ext, sc_notify_nary) on the simulated MPI: all 9 algorithm types, "
                        "receiver patterns random/sparse/dense/ring/star/all/empty/self/high-ranks, n-ary widths 2..6, ranges budgets 1..25, superset extra sets, sorted 0/1, in-place and "
                        "separate senders array, 8 scheduler adversaries (deadlock, endless polling and leftover messages are detected by the simulator), 2-4 calls back to back with and "
-                       "without barrier; non-trivial = P > 1 and at least one receiver")
+                       "without barrier; histories of 2-6 rounds on ONE notify object with reconfiguration between the rounds (families shrink, grow, permute, randw, types, "
+                       "sametype, ranges, thresh, superset, fresh, mixed; P 3..17); non-trivial = P > 1 and at least one receiver")
     ctx.notes["distribution"] = dist
     for c in cases[:: max(1, len(cases) // 4)][:4]:
         ctx.sample(dict(header=c.header(), receivers_call0=c.patterns[0][:5]))
     ctx.cov["trusted_base"] = ["tools/c2g slices of sc_notify_recursive_nary / sc_notify_recursive / sc_notify (anchored on the source text)",
+                               "tools/c2g group NotifyCfgC01: whole bodies of the setters / set_type / nary_init / ranges_init, field footprint of the round functions on the notify object (syntactic, flow-insensitive)",
                                "tools/simmpi (scheduler, matching rules, deadlock/livelock/leftover detection) and its trace",
                                "MPI contract used by the program theorems: collectives return the specified values (Section hypotheses coll_contract), every sent message is delivered exactly once to a matching receive (round abstraction for wildcard receives)"]
     ctx.assumptions += ["receiver lists are sorted and duplicate free (documented precondition)",
                         "theorems: record merge algebra; n-ary and binary recursion arithmetic (matching, routing, delivery, inversion); per-rank programs of allgather, pex, pcx, rsx under the collective contract / round abstraction; nbx, ranges, superset and payloadv are covered by the simulated runs and the oracle only",
-                        "within one call a wildcard receive on a level's tag sees exactly that level's messages (round abstraction); consecutive calls are the recorded finding"]
+                        "within one call a wildcard receive on a level's tag sees exactly that level's messages (round abstraction); consecutive calls are the recorded finding",
+                        "histories on one notify object are legal: a type's setter is called only while the object has that type, a superset round only after a callback was set since the last change to superset; rounds are separated by a barrier"]
     return "proof"
